@@ -35,14 +35,142 @@ def _component_source(cfn, op):
     return srcs, idx, crossed
 
 
-def i1_insertion_cost_order(F, r):
-    fn = F.fns.get(ORD_CMP)
-    if fn is None:
-        raise AnchorError(ORD_CMP)
-    cls = F.children.get(ORD_CMP, [])
-    if len(cls) != 1:
-        raise AnchorError(f"InsertionCost::cmp: expected one fold closure, found {len(cls)}")
-    c = cls[0]
+ZERO_F = ("const", "0f64")
+
+
+def _vec_models(lens, size_of_range=None):
+    """call models that let E-C evaluate code over small symbolic cost vectors: `X.data` has lens[X] components X0, X1, ...; a missing component is padded by the
+    default cost; `0..n` ranges are walked concretely (fold form through try_fold / map+collect, loop form through next)"""
+    def which(v):
+        v = oe.strip_refs(v)
+        while v and v[0] == "ref":
+            v = v[1]
+        if v and v[0] == "sym":
+            root = v[1].split(".")[0]
+            return root if root in lens else None
+        return None
+
+    def m_len(it, args, heap, rel):
+        w = which(args[0]) if args else None
+        return ("int", lens[w]) if w else NotImplemented
+
+    def m_max(it, args, heap, rel):
+        a, b = oe.strip_refs(args[0]), oe.strip_refs(args[1])
+        if a and b and a[0] == b[0] == "int":
+            return ("int", max(a[1], b[1]))
+        return NotImplemented
+
+    def m_get(it, args, heap, rel):
+        w = which(args[0]) if args else None
+        i = oe.strip_refs(args[1]) if len(args) > 1 else None
+        if not w or not i or i[0] != "int":
+            return NotImplemented
+        return oe.some(oe.ref(oe.sym(f"{w}{i[1]}"))) if i[1] < lens[w] else oe.NONE
+
+    def m_unwrap_default(it, args, heap, rel):
+        a = args[0]
+        if a == oe.NONE:
+            return ZERO_F
+        if a and a[0] == "some":
+            return oe.strip_refs(a[1]) if a[1] and a[1][0] == "ref" else a[1]
+        return NotImplemented
+
+    def m_unwrap_or(it, args, heap, rel):
+        a = args[0]
+        if a == oe.NONE:
+            return args[1]
+        if a and a[0] == "some":
+            return oe.strip_refs(a[1]) if a[1] and a[1][0] == "ref" else a[1]
+        return NotImplemented
+
+    def m_default(it, args, heap, rel):
+        return ZERO_F
+
+    def m_copied(it, args, heap, rel):
+        a = args[0]
+        if a == oe.NONE:
+            return oe.NONE
+        if a and a[0] == "some":
+            return oe.some(oe.strip_refs(a[1]))
+        return NotImplemented
+
+    return {"::len": m_len, "cmp::Ord::max": m_max, "::get": m_get, "::unwrap_or_default": m_unwrap_default, "Option::<T>::unwrap_or": m_unwrap_or,
+            "default::Default::default": m_default, "Option::<&T>::copied": m_copied, "Option::<&T>::cloned": m_copied}
+
+
+def cmp_law(F, r):
+    """InsertionCost::cmp evaluated as a whole over cost vectors of 0, 1 and 2 components on each side (every ordering of the compared components enumerated):
+    the result is the ordering of the FIRST pair of (zero-padded) components that differ, Equal if none does"""
+    fn = F.fns[ORD_CMP]
+    loop_blocks = set().union(*mir.natural_loops(fn).values()) if mir.natural_loops(fn) else set()
+    loop_form = any(t["callee"].endswith("Iterator::next") and bi in loop_blocks for bi, t in mir.calls(fn))
+    decided = 0
+    for ls in (0, 1, 2):
+        for lo in (0, 1, 2):
+            lens = {"self": ls, "other": lo}
+            models = _vec_models(lens)
+            size = max(ls, lo)
+
+            def m_try_fold(it, args, heap, rel, size=size):
+                acc = args[1]
+                cv = oe.strip_refs(args[2]) if args[2] and args[2][0] == "ref" else args[2]
+                for i in range(size):
+                    res = it._call_closure(cv, [acc, ("int", i)], heap, rel, 1)
+                    if not res or res[0] != "cf":
+                        raise oe.Undecided("fold step does not answer a ControlFlow")
+                    if res[1] == "Break":
+                        return res
+                    acc = res[2]
+                return ("cf", "Continue", acc)
+
+            def m_unwrap_value(it, args, heap, rel):
+                a = args[0]
+                return a[2] if a and a[0] == "cf" else NotImplemented
+            models["Iterator::try_fold"] = m_try_fold
+            models["::unwrap_value"] = m_unwrap_value
+            it = oe.Interp(F, ORD_CMP, {1: oe.ref(oe.sym("self")), 2: oe.ref(oe.sym("other"))}, fresh=True, max_steps=4000, call_models=models)
+            if loop_form:
+                oe.script_next(it, size, make=lambda i: oe.some(("int", i - 1)))
+            try:
+                paths = it.explore(max_paths=400)
+            except oe.Undecided as e:
+                r.ok(f"cmp law[{ls},{lo}]", f"not decided: the comparison is not evaluable in this form ({e})")
+                continue
+            for p in paths:
+                rels = {}
+                for a in p.assumptions:
+                    if len(a) == 3 and isinstance(a[2], str) and a[2] in "LEG" and a[0] != "switch":
+                        rels[(a[0], a[1])] = a[2]
+                        rels[(a[1], a[0])] = oe.rev(a[2])
+                want = "E"
+                why = ""
+                for i in range(size):
+                    x = f"self{i}" if i < ls else "k0f64"
+                    y = f"other{i}" if i < lo else "k0f64"
+                    if x == y:
+                        continue
+                    o = rels.get((x, y))
+                    if o is None:
+                        want = None
+                        why = f"component {i} is never compared although all earlier components are equal"
+                        break
+                    if o != "E":
+                        want = o
+                        break
+                desc = ",".join(f"{k[0]}{'<=>'['LEG'.index(v)]}{k[1]}" for k, v in sorted(rels.items()) if k[0].startswith("self") or (k[0] == "k0f64" and k[1].startswith("other")))
+                inst = f"cmp law[{ls},{lo}; {desc}]"
+                decided += 1
+                if want is None:
+                    r.fail(inst, f"InsertionCost::cmp answers {p.ret} but {why}: not the lexicographic order with zero padding", F.loc(ORD_CMP))
+                elif p.ret != ("ord", want):
+                    r.fail(inst, f"InsertionCost::cmp answers {p.ret}, the lexicographic order of the zero-padded components is {want}", F.loc(ORD_CMP))
+                else:
+                    r.ok(inst, f"= {want}")
+    return decided
+
+
+def _i1_fold_shape(F, r, fn, c):
+    """additional shape checks for the fold-with-closure form (operands, padding, fold law of the step closure, initial value, range)"""
     cfn = F.fns[c]
     cmps = [(bi, t) for bi, t in mir.calls(cfn) if t["callee"].split("::")[-1] in ("total_cmp", "partial_cmp", "cmp", "lt", "gt", "le", "ge")]
     floatcmp = [s for _, _, s in mir.stmts(cfn) if s["r"]["k"] == "bin" and s["r"]["op"] in ("Lt", "Gt", "Le", "Ge") and s["r"]["ty"] in ("f64", "f32")]
@@ -63,14 +191,6 @@ def i1_insertion_cost_order(F, r):
             r.ok("cmp closure: padding", f"missing component => default via {sorted(set(pads))}")
         else:
             r.fail("cmp closure: padding", "missing trailing component is not padded with zero (unwrap/index would panic or shorter vector compares differently)", F.loc(c))
-    # no other comparison anywhere in cmp (fast paths over slices, partial_cmp ...) and every return passes the fold
-    stray = [t["callee"] for g in F.family(ORD_CMP) for _, t in mir.calls(F.fns[g])
-             if t["callee"].split("::")[-1] in ("partial_cmp", "lt", "le", "gt", "ge", "eq", "ne") or
-             (t["callee"].split("::")[-1] == "cmp" and "usize" not in " ".join(t["ga"]))]
-    if stray:
-        r.fail("cmp: single comparison path", f"InsertionCost::cmp contains a second comparison path ({stray[0]}): two paths that treat -0.0 / missing components differently break transitivity", F.loc(ORD_CMP))
-    else:
-        r.ok("cmp: single comparison path", "the fold over total_cmp is the only comparison")
     folds_b = [bi for bi, t in mir.calls(fn) if t["callee"].split("::")[-1] in ("try_fold", "fold")]
     if folds_b and not (set(mir.ret_blocks(fn)) & mir.reach(fn, [0], blocked=folds_b)):
         r.ok("cmp: every return through the fold")
@@ -123,6 +243,31 @@ def i1_insertion_cost_order(F, r):
             r.ok("cmp: range", "0..max(self.len, other.len)")
         else:
             r.fail("cmp: range", "component range is not the maximum of both lengths (trailing components ignored)", F.loc(ORD_CMP))
+
+
+def i1_insertion_cost_order(F, r):
+    fn = F.fns.get(ORD_CMP)
+    if fn is None:
+        raise AnchorError(ORD_CMP)
+    # the law itself, whatever the form (fold with a closure, loop, helper): lexicographic order of the zero-padded components
+    n = cmp_law(F, r)
+    tc = [t for g in F.family(ORD_CMP) for _, t in mir.calls(F.fns[g]) if t["callee"].endswith("f64>::total_cmp")]
+    if not tc:
+        r.fail("cmp: total_cmp", "components are not compared with f64::total_cmp (NaN / -0.0 break totality)", F.loc(ORD_CMP))
+    # no other comparison anywhere in cmp (fast paths over slices, partial_cmp ...); `==` / `!=` between two Ordering values is not a cost comparison
+    stray = [t["callee"] for g in F.family(ORD_CMP) for _, t in mir.calls(F.fns[g])
+             if (t["callee"].split("::")[-1] in ("partial_cmp", "lt", "le", "gt", "ge", "eq", "ne") and not any("core::cmp::Ordering" in g_ for g_ in t["ga"])) or
+             (t["callee"].split("::")[-1] == "cmp" and "usize" not in " ".join(t["ga"]))]
+    floats = [s_ for g in F.family(ORD_CMP) for _, _, s_ in mir.stmts(F.fns[g]) if s_["r"]["k"] == "bin" and s_["r"]["op"] in ("Lt", "Gt", "Le", "Ge", "Eq", "Ne") and s_["r"]["ty"] in ("f64", "f32")]
+    if stray or floats:
+        r.fail("cmp: single comparison path", f"InsertionCost::cmp contains a second comparison path ({stray[0] if stray else 'raw float comparison'}): two paths that treat -0.0 / NaN / missing components differently break transitivity", F.loc(ORD_CMP))
+    else:
+        r.ok("cmp: single comparison path", "total_cmp on the components is the only cost comparison")
+    cls = F.children.get(ORD_CMP, [])
+    if len(cls) == 1 and any(t["callee"].split("::")[-1] in ("try_fold", "fold") for _, t in mir.calls(fn)):
+        _i1_fold_shape(F, r, fn, cls[0])
+    elif n == 0:
+        r.fail("cmp: form", "InsertionCost::cmp is neither the component fold nor evaluable as a whole: the order law is not decided (re-confirm)", F.loc(ORD_CMP))
     # PartialOrd / PartialEq delegate
     pf = F.fns.get(PORD)
     if pf is None:
@@ -188,18 +333,32 @@ def i2_arith(F, r):
             rname = {x[0] for x in rs}
             if op != want:
                 r.fail(name, f"`{want}` impl computes `{op}` on the components", F.loc(c, s["ln"]))
+            elif not lname and not rname:
+                # the closure combines two plain parameters: the element pairing lives in a helper (`combine_costs(self, rhs, |l, r| l + r)`); operand ORDER is still checked
+                a0 = {v for k, v, p_ in mir.trace(cfn, s["r"]["o"][0]) if k == "arg"}
+                a1 = {v for k, v, p_ in mir.trace(cfn, s["r"]["o"][1]) if k == "arg"}
+                if a0 and a1 and max(a0) < min(a1):
+                    r.ok(name, f"combining closure computes first {'+' if op == 'Add' else '-'} second; element pairing delegated to a helper (not decided here)")
+                else:
+                    r.fail(name, f"combining closure computes {op} with its parameters in the wrong order", F.loc(c, s["ln"]))
             elif lname == {"self"} and rname == {"rhs"} and li == ri and len(li) == 1:
                 r.ok(name, f"result[i] = self[i] {'+' if op == 'Add' else '-'} rhs[i], same index, zero padding")
             else:
                 r.fail(name, f"element {op} combines {sorted(lname)}[{sorted(li)}] with {sorted(rname)}[{sorted(ri)}] (expected self[i], rhs[i])", F.loc(c, s["ln"]))
-        maxc = [t2 for _, t2 in mir.calls(fn) if t2["callee"].endswith("Ord::max")]
+        # the impl together with the same-module helpers it calls directly (an extracted `combine_costs(lhs, rhs, f)` still is the operator's arithmetic)
+        ext = [fn]
+        for _, t2 in mir.calls(fn):
+            tg = t2.get("res") or t2["callee"]
+            if tg in F.fns and F.fns[tg]["module"] == fn["module"] and F.fns[tg]["kind"] != "Closure" and not F.fns[tg].get("impl_trait"):
+                ext.append(F.fns[tg])
+        maxc = [t2 for f_ in ext for _, t2 in mir.calls(f_) if t2["callee"].endswith("Ord::max")]
         if not maxc:
             r.fail(name + " range", "result length is not max(len) (components dropped)", F.loc(m))
         # the result has max(len) components: nothing of bounded length may sit between the index range and the result (a zip with a fixed-size array or a
         # take() silently drops the layers behind it)
-        bounding = [t2["callee"].split("::")[-1] for _, t2 in mir.calls(fn) if t2["callee"].split("::")[-1] in ("zip", "take", "take_while", "step_by", "chunks", "truncate", "resize")]
+        bounding = [t2["callee"].split("::")[-1] for f_ in ext for _, t2 in mir.calls(f_) if t2["callee"].split("::")[-1] in ("zip", "take", "take_while", "step_by", "chunks", "truncate", "resize")]
         fixed = [fn["locals"][t2["dest"]["l"]] for _, t2 in mir.calls(fn) if not t2["dest"]["p"] and re.match(r"^\[f64; \d+\]$", fn["locals"][t2["dest"]["l"]] or "")]
-        arrays = [ty for ty in fn["locals"] if re.match(r"^\[f64; \d+\]$", ty or "")]
+        arrays = [ty for f_ in ext for ty in f_["locals"] if re.match(r"^\[f64; \d+\]$", ty or "")]
         if bounding or arrays:
             r.fail(name + " length", f"the element-wise result passes through {'a fixed-size array ' + arrays[0] if arrays else ''}{' / ' if arrays and bounding else ''}{', '.join(bounding)}: "
                    "cost layers beyond that bound are silently dropped from every quote (goals with more objective layers)", F.loc(m))
@@ -207,21 +366,86 @@ def i2_arith(F, r):
             r.ok(name + " length", "collected straight from the index range 0..max(len)")
 
 
+def goal_order_law(F, r):
+    """Goal::total_order evaluated as a whole over 0, 1 and 2 layers (each layer's answer enumerated): the result is the answer of the FIRST layer that is not Equal,
+    Equal if there is none, and every layer is asked about (a, b) in that order. Fold form (try_fold + closure) and loop form are both evaluated."""
+    fn = F.fns[GOAL_TO]
+    loop_blocks = set().union(*mir.natural_loops(fn).values()) if mir.natural_loops(fn) else set()
+    loop_form = any(t["callee"].endswith("Iterator::next") and bi in loop_blocks for bi, t in mir.calls(fn))
+    decided = 0
+    for n in (0, 1, 2):
+        def m_try_fold(it, args, heap, rel, n=n):
+            acc = args[1]
+            cv = oe.strip_refs(args[2]) if args[2] and args[2][0] == "ref" else args[2]
+            for i in range(n):
+                res = it._call_closure(cv, [acc, oe.ref(oe.sym(f"layer{i + 1}"))], heap, rel, 1)
+                if not res or res[0] != "cf":
+                    raise oe.Undecided("fold step does not answer a ControlFlow")
+                if res[1] == "Break":
+                    return res
+                acc = res[2]
+            return ("cf", "Continue", acc)
+
+        def m_unwrap_value(it, args, heap, rel):
+            a = args[0]
+            return a[2] if a and a[0] == "cf" else NotImplemented
+        it = oe.Interp(F, GOAL_TO, {1: oe.ref(oe.sym("self")), 2: oe.ref(oe.sym("a")), 3: oe.ref(oe.sym("b"))}, fresh=True, enum_results=True, max_steps=4000,
+                       observe=("function::Fn::call",), call_models={"Iterator::try_fold": m_try_fold, "::unwrap_value": m_unwrap_value})
+        if loop_form:
+            oe.script_next(it, n, make=lambda i: oe.some(oe.ref(oe.sym(f"layer{i}"))))
+        try:
+            paths = it.explore(max_paths=200)
+        except oe.Undecided as e:
+            r.ok(f"total_order law[{n} layer(s)]", f"not decided: not evaluable in this form ({e})")
+            continue
+        for p in paths:
+            ans = [a[2] for a in p.assumptions if a[0] == "callret"]
+            ans = [("LEG"["LEG".index(x)] if isinstance(x, str) and x in "LEG" else x) for x in ans]
+            want = next((x for x in ans if x != "E"), "E")
+            inst = f"total_order law[{n} layer(s): {','.join(map(str, ans))}]"
+            decided += 1
+            asked_all = len(ans) == n or want != "E"
+            if p.ret != ("ord", want) or not asked_all:
+                r.fail(inst, f"Goal::total_order answers {p.ret} after asking {len(ans)} of {n} layer(s): it must be the first non-Equal layer answer (lexicographic)", F.loc(GOAL_TO))
+                continue
+            bad = False
+            for suf, cargs in p.calls:
+                flat = []
+                for x in cargs:
+                    x = oe.strip_refs(x)
+                    if x and x[0] == "tuple":
+                        flat += [oe.strip_refs(y) for y in x[1]]
+                syms = [y[1] for y in flat if y and y[0] == "sym" and y[1] in ("a", "b")]
+                if syms != ["a", "b"]:
+                    bad = True
+            if bad:
+                r.fail(inst, "a layer's order function is not asked about (a, b) in that order: comparison reversed or degenerate", F.loc(GOAL_TO))
+            else:
+                r.ok(inst, f"= {want}")
+    return decided
+
+
 def g1_goal_fold(F, r):
     fn = F.fns.get(GOAL_TO)
     if fn is None:
         raise AnchorError(GOAL_TO)
-    cls = F.children.get(GOAL_TO, [])
-    if len(cls) != 1:
-        raise AnchorError(f"Goal::total_order closures: {len(cls)}")
-    c = cls[0]
-    cfn = F.fns[c]
     # iteration source and direction
     chain = [t["callee"].split("::")[-1] for _, t in mir.calls(fn)]
     if "rev" in chain:
         r.fail("total_order: direction", "layers are folded in reverse: lower-priority objectives decide first", F.loc(GOAL_TO))
     else:
         r.ok("total_order: direction", "self.layers.iter() front to back")
+    decided = goal_order_law(F, r)
+    cls = F.children.get(GOAL_TO, [])
+    if len(cls) == 1 and any(t["callee"].split("::")[-1] in ("try_fold", "fold") for _, t in mir.calls(fn)):
+        _g1_fold_shape(F, r, fn, cls[0])
+    elif not decided:
+        r.fail("total_order: form", "Goal::total_order is neither the layer fold nor evaluable as a whole: the lexicographic law is not decided (re-confirm)", F.loc(GOAL_TO))
+    _g1_rest(F, r)
+
+
+def _g1_fold_shape(F, r, fn, c):
+    cfn = F.fns[c]
     # closure: argument order (objectives, a, b)
     calls = [(bi, t) for bi, t in mir.calls(cfn) if t["callee"].startswith("core::ops::function::Fn")]
     if len(calls) != 1:
@@ -271,6 +495,9 @@ def g1_goal_fold(F, r):
                 r.ok(inst, "first non-Equal layer decides")
             else:
                 r.fail(inst, f"a deciding layer ({o}) does not end the comparison with its order ({p.ret})", F.loc(c))
+
+
+def _g1_rest(F, r):
     # fitness iterates the same layers in the same direction
     ff = F.fns.get(GOAL_FIT)
     if ff is None:
@@ -284,10 +511,20 @@ def g1_goal_fold(F, r):
     # add_single comparator
     cls = F.children.get(ADD_SINGLE, [])
     cmpc = [x for x in cls if F.fns[x]["locals"][0] == "core::cmp::Ordering"]
+    # ... or a named function handed to the layer (`Arc::new(compare_by_single_objective)`)
+    for _, t_ in mir.calls(F.fns[ADD_SINGLE]):
+        for a_ in t_["args"]:
+            if mir.is_fnconst(a_) and a_["fn"] in F.fns and F.fns[a_["fn"]]["locals"][0] == "core::cmp::Ordering":
+                cmpc.append(a_["fn"])
+    for _, _, s_ in mir.stmts(F.fns[ADD_SINGLE]):
+        for a_ in s_["r"].get("o", []):
+            if mir.is_fnconst(a_) and a_["fn"] in F.fns and F.fns[a_["fn"]]["locals"][0] == "core::cmp::Ordering" and a_["fn"] not in cmpc:
+                cmpc.append(a_["fn"])
     if len(cmpc) != 1:
         raise AnchorError(f"add_single comparator closures: {len(cmpc)}")
     cc = cmpc[0]
     ccf = F.fns[cc]
+    off = 0 if ccf["kind"] == "Closure" else -1
     fits = [(bi, t) for bi, t in mir.calls(ccf) if t["callee"].endswith("FeatureObjective::fitness")]
     tc = [(bi, t) for bi, t in mir.calls(ccf) if t["callee"].endswith("total_cmp")]
     bad = [t["callee"] for _, t in mir.calls(ccf) if t["callee"].split("::")[-1] in ("partial_cmp",)]
@@ -309,7 +546,7 @@ def g1_goal_fold(F, r):
         fb = {(k, v) for k, v, p in mir.trace(ccf, fits[1][1]["args"][1])}
         la = {(k, v) for k, v, p in mir.trace(ccf, tc[0][1]["args"][0])}
         lb = {(k, v) for k, v, p in mir.trace(ccf, tc[0][1]["args"][1])}
-        if ("arg", 3) in fa and ("arg", 4) in fb and ("call", fits[0][0]) in la and ("call", fits[1][0]) in lb:
+        if ("arg", 3 + off) in fa and ("arg", 4 + off) in fb and ("call", fits[0][0]) in la and ("call", fits[1][0]) in lb:
             r.ok("add_single comparator", "fitness(a).total_cmp(fitness(b)) of objectives[0] (both-zero case handled explicitly)")
         else:
             r.fail("add_single comparator", "single-objective layer does not compare fitness(a) with fitness(b) in that order", F.loc(cc))
